@@ -1,3 +1,4 @@
+import AdaVerif.Model.HostParse
 import Driver.Proto
 import AdaVerif.Spec.Sets
 import AdaVerif.Model.Encode
@@ -73,6 +74,11 @@ def step (a : List String) : String :=
   | ["ser4", n] => hexs (Model.HostKernels.serIpv4 (natArg n))
   | ["ipv4fast", h] => match Model.FastScan.ipv4Fast (unhexs h) with
     | some a => toString a | none => "fail"
+  | ["phost", sp, h, hint] =>
+    -- hint: what ada::idna::to_ascii answers for the percent-decoded input ("!" = the empty string)
+    let idna : Spec.Idna := ⟨fun _ => if hint == "!" then none else some (unhexs hint)⟩
+    let sh (r : Option (Bytes × Nat)) : String := match r with | some (t, k) => hexs t ++ "," ++ toString k | none => "fail"
+    sh (Model.HostParse.parseHost idna (sp == "1") (unhexs h)) ++ " " ++ sh (Model.HostParse.parseHostA idna (sp == "1") (unhexs h))
   | "spec.canon" :: comp :: value :: proto :: hints => cmdSpecCanon comp value proto hints
   | _ => "bad-op"
 
